@@ -272,10 +272,8 @@ def run_group(entry, repo='/repo', tier='quick', seed=0):
             if h.get('function'):
                 out['functions'].append({'function': h['function'], 'repo': h.get('repo', ''), 'engine': 'kani', 'unit': entry['group'],
                                          'contracted': True, 'complete': bool(h.get('complete', False)), 'bounds': h.get('bounds')})
-        # concrete playback for refuted harnesses (the replay against the real code)
-        for ob in out['harnesses']:
-            if ob['status'] != 'refuted':
-                continue
+        # concrete playback for refuted harnesses (the replay against the real code); in parallel, fastest first
+        def playback(ob):
             cmd2 = ['cargo', 'kani', '-Z', 'function-contracts', '-Z', 'stubbing', '-Z', 'unstable-options', '-Z', 'concrete-playback',
                     '--concrete-playback=print', '--output-format', 'terse', '--harness', ob['name']]
             if package == 'profirust':
@@ -287,6 +285,11 @@ def run_group(entry, repo='/repo', tier='quick', seed=0):
                     ob['playback'] = m.group(1)
             except subprocess.TimeoutExpired:
                 pass
+        ref = sorted([ob for ob in out['harnesses'] if ob['status'] == 'refuted'], key=lambda o: o.get('time_s') or 0)
+        if ref:
+            import concurrent.futures as _cf
+            with _cf.ThreadPoolExecutor(max_workers=4) as ex:
+                list(ex.map(playback, ref))
         out['wall_s'] = time.time() - t0
         return out
     finally:
